@@ -292,7 +292,7 @@ def run(tier: str) -> Run:
         r3.check(ok, f'fit_peaks [{order_label}]', loc(ffi), detail, key='loop')
 
     # ---- R4: statistics ---------------------------------------------------------------------------------------------------
-    r4 = run.rule('R4', 'chi2 = sum((y-f)^2/var); red = chi2/(n-k); p = 1-cdf(chi2; n-k); aic = n ln(chi2/n) + 2k, from the returned parameters and the window data', 2)
+    r4 = run.rule('R4', 'chi2 = sum((y-f)^2/var); red = chi2/(n-k); p = 1-cdf(chi2; n-k); aic = n ln(chi2/n) + 2k, from the returned parameters and the window data', 4)
     perf = repo.func(MOD, '_perform_fit')
     w = World(repo)
     w.model.popt_factory = lambda it, m, p0, w=w: {k: with_variance(w, w.scalar(f'opt_{k}', CNT, 3)) for k in sorted(p0)}
@@ -329,6 +329,30 @@ def run(tier: str) -> Run:
                 if not (isinstance(g, SVar) and isinstance(g.term, Rat) and g.term.eq(wt)):
                     probs.append(f'{name} = {T.show(g.term)[:200] if isinstance(g, SVar) and g.term is not None else g!r}, expected {T.show(wt)[:200]}')
     r4.check(not probs, '_perform_fit statistics', loc(perf), {'problems': probs[:3]}, key='_goodness_of_fit_statistics')
+    # a window with exactly as many points as parameters has no degree of freedom: chi2/(n-k) is not a number,
+    # and with one degree of freedom the divisor is 1
+    gfi = repo.func(MOD, '_goodness_of_fit_statistics')
+    for n_pts, k_par in ((2, 2), (3, 2)):
+        w = World(repo)
+        data = w.data(n_pts)
+        best = w.model.array(w.it, [w.scalar(f'f{i}', CNT, 1 + i) for i in range(n_pts)], 'x')
+        best.kind = 'dataarray'
+        best.members['coords'] = dict(data.members['coords'])
+        params = {f'p{j}': w.scalar(f'p{j}', CNT, 1) for j in range(k_par)}
+        kind, st = w.call(gfi, [data, best, params])
+        chi2 = Rat.const(0)
+        for i in range(n_pts):
+            chi2 = chi2 + (Rat.sym(f'y{i}') - Rat.sym(f'f{i}')) ** 2 / Rat.sym(f'v{i}', positive=True)
+        inst = f'{n_pts} points, {k_par} parameters'
+        if n_pts == k_par:
+            # either an exception or an undefined (non-finite) statistic; never a finite chi2 / m
+            finite = kind == 'return' and isinstance(st, dict) and isinstance(st.get('red_chisq'), SVar) and isinstance(st['red_chisq'].term, Rat)
+            r4.check(not finite, f'reduced chi-square is undefined for {inst}', loc(gfi),
+                     {'red_chisq': T.show(st['red_chisq'].term) if finite else None, 'documented': 'chi2 / (n - k) with n - k = 0'}, key='dof-zero')
+        else:
+            ok = kind == 'return' and isinstance(st, dict) and isinstance(st.get('red_chisq'), SVar) and isinstance(st['red_chisq'].term, Rat) \
+                and st['red_chisq'].term.eq(chi2 / (n_pts - k_par))
+            r4.check(ok, f'reduced chi-square for {inst}', loc(gfi), {'outcome': kind}, key='dof-one')
     r4.check(not [p_ for p_ in probs if 'optimis' in p_ or 'evaluated' in p_ or 'parameter' in p_], '_perform_fit feeds popt and window data', loc(perf), {'problems': probs[:3]}, key='perform-fit')
 
     # ---- R5: automatic windows ---------------------------------------------------------------------------------------------
@@ -382,7 +406,7 @@ def run(tier: str) -> Run:
     data = w.data(8, variances=False)
     before = [(y, y.term) for y in items_of(data)]
     results = []
-    for r_idx, (lo, hi, success) in enumerate(((1, 4, True), (3, 6, False), (5, 8, True), (20, 30, True))):
+    for r_idx, (lo, hi, success) in enumerate(((1, 4, True), (3, 6, False), (5, 8, True), (20, 30, True), (2, 7, True))):
         results.append(ResultStub(w, r_idx, lo, hi, success))
     kind, res = w.call(rfi, [data, results])
     probs = []
